@@ -317,6 +317,7 @@ def gen_plan(rng, tier):
         def abort_fault(p):
             if swarm["faults"]["abort"] and rng.random() < p:
                 return {"kind": "abort", "frac": rng.randrange(0, 1000000),
+                        **({"strat": rng.randrange(0, 1000000)} if rng.random() < 0.5 else {}),
                         "scope": rng.choice(["any", "any", "timeline.py", "vpsc.py", "scale.py", "d3_time.py",
                                              "renderer.py", "force.py", "distributor.py", "distributor.py",
                                              "removeOverlap.py", "node.py", "tex.py"]),
@@ -800,13 +801,8 @@ def _traced(fault, dry, real):
     """Run real() with an exception injected at a seeded fraction of the line
     events that dry() executes inside labella (counted in a forked copy of this
     process).  Returns (result or None, tracer)."""
-    scope = fault["scope"]
-    total, total_any = seams.dry_count(dry, scope)
-    if total == 0:
-        scope = "any"
-        total = total_any
-    k = 1 + (total * fault["frac"]) // 1000000
-    tr = seams.AbortTracer(k, scope, EXC[fault["exc"]])
+    k, scope, func = seams.abort_point(dry, fault["scope"], fault["frac"], fault.get("strat"))
+    tr = seams.AbortTracer(k, scope, EXC[fault["exc"]], func)
     res = None
     try:
         with tr:
